@@ -23,7 +23,7 @@ TraceInit ==
   /\ defs = [f \in Frags |-> [on |-> Traces[tid][1].defs[f].on, inl |-> Traces[tid][1].defs[f].inl,
                              spreads |-> ToSet(Traces[tid][1].defs[f].spreads)]]
   /\ ops = [k \in DOMAIN Traces[tid][1].ops |->
-              [i \in DOMAIN Traces[tid][1].ops[k] |-> [T |-> Traces[tid][1].ops[k][i].T, fs |-> ToSet(Traces[tid][1].ops[k][i].fs)]]]
+              [i \in DOMAIN Traces[tid][1].ops[k] |-> [T |-> Traces[tid][1].ops[k][i].T, fs |-> ToSet(Traces[tid][1].ops[k][i].fs), wrap |-> Traces[tid][1].ops[k][i].wrap]]]
   /\ nm = [f \in Frags |-> Traces[tid][1].nm[f]]
   /\ phase = "adding" /\ done = 0 /\ unpacked = {} /\ mixins = {} /\ opBases = <<>>
   /\ names = {} /\ deps = <<>> /\ order = <<>> /\ module = {}
